@@ -76,3 +76,33 @@ Proof.
   - vm_compute. discriminate.
   - vm_compute. reflexivity.
 Qed.
+
+(* ---------- the executable checker is sound for the Prop statement ---------- *)
+From HV Require Import Topo.WF.
+
+Theorem wf_check_soundness : forall d, wf_check d = [] -> WF d.
+Proof. exact wf_check_sound. Qed.
+Print Assumptions wf_check_soundness.
+
+(* Non-vacuity: the smallest legal topology (Machine > PU, one NUMA node
+   attached to the Machine) passes the checker, hence satisfies WF. *)
+Definition ex_set1 : option bset := Some (bs_single 0).
+Definition ex_machine : dobj :=
+  mkDobj 0 HWLOC_OBJ_MACHINE 0 0 (Some 1) PNull (PId 1) (PId 1) PNull PNull PNull PNull 1 1 0 0 0 0
+         (Some [PId 1]) [PId 1] [PId 2] [] [] ex_set1 ex_set1 ex_set1 ex_set1 4096 0 (-1) (-1) (-1) (-1) (-1) (-1) (-1).
+Definition ex_pu : dobj :=
+  mkDobj 1 HWLOC_OBJ_PU 1 0 (Some 2) (PId 0) PNull PNull PNull PNull PNull PNull 0 0 0 0 0 0
+         None [] [] [] [] ex_set1 ex_set1 ex_set1 ex_set1 0 0 (-1) (-1) (-1) (-1) (-1) (-1) (-1).
+Definition ex_numa : dobj :=
+  mkDobj 2 HWLOC_OBJ_NUMANODE HWLOC_TYPE_DEPTH_NUMANODE 0 (Some 3) (PId 0) PNull PNull PNull PNull PNull PNull 0 0 0 0 0 0
+         None [] [] [] [] ex_set1 ex_set1 ex_set1 ex_set1 4096 4096 (-1) (-1) (-1) (-1) (-1) (-1) (-1).
+Definition ex_dump : dump :=
+  mkDump 0 2 3 (map (fun _ => HWLOC_TYPE_FILTER_KEEP_ALL) all_types) ex_set1 ex_set1
+    ([mkLevel 0 (Z.of_N HWLOC_OBJ_MACHINE) 1 [PId 0] PNull; mkLevel 1 (Z.of_N HWLOC_OBJ_PU) 1 [PId 1] PNull;
+      mkLevel HWLOC_TYPE_DEPTH_NUMANODE (Z.of_N HWLOC_OBJ_NUMANODE) 1 [PId 2] PNull] ++
+     map (fun sl => mkLevel (fst sl) (Z.of_N (snd sl)) 0 [] PNull) (tl special_levels))
+    (map (fun ty => match special_depth ty with Some sd => sd
+                    | None => if ty =? HWLOC_OBJ_MACHINE then 0%Z else if ty =? HWLOC_OBJ_PU then 1%Z else HWLOC_TYPE_DEPTH_UNKNOWN end) all_types)
+    [ex_machine; ex_pu; ex_numa].
+Example wf_example : wf_check ex_dump = [] /\ WF ex_dump.
+Proof. assert (H : wf_check ex_dump = []) by (vm_compute; reflexivity). split; [exact H|apply wf_check_sound, H]. Qed.
